@@ -9,9 +9,10 @@ use serde_json::{json, Value};
 pub fn run(ctx: &Ctx) -> Report {
 	let refs = Refs::new(&ctx.root);
 	let mut total = Report::new();
-	total.rule = "every path text {relative,absolute} x SEG^{<=n} accepted by the reference path DFA; one case = one path with every path query and every interleaving of next/next_back two steps beyond exhaustion; non-trivial = distinct valid path text with at least one segment".into();
+	total.rule = "every path text {relative,absolute} x SEG^{<=n} accepted by the reference path DFA (SEG = structural alphabets, and segments of 7..9 / 15..17 / 31..33 bytes); one case = one path with every path query and every interleaving of next/next_back two steps beyond exhaustion; non-trivial = distinct valid path text with at least one segment".into();
 	// (alphabet level, max segments)
-	let plans: Vec<(u8, usize)> = if ctx.quick() { vec![(0, 6), (1, 4)] } else { vec![(0, 8), (1, 5), (2, 4)] };
+	// level 9 = segments whose lengths sit on and around 8-, 16- and 32-byte blocks (plus "" and "a")
+	let plans: Vec<(u8, usize)> = if ctx.quick() { vec![(0, 6), (1, 4), (9, 3)] } else { vec![(0, 8), (1, 5), (2, 4), (9, 4)] };
 	for f in Family::active() {
 		let mut vs = Vec::new();
 		total.evaluations += by_family!(f, c12_constants(&mut vs));
@@ -20,7 +21,13 @@ pub fn run(ctx: &Ctx) -> Report {
 		}
 		let d = refs.dfa(f, Kind::Path);
 		for (level, n) in &plans {
-			let alpha = domains::seg_alphabet(f, *level);
+			let alpha = if *level == 9 {
+				let mut a = vec![Vec::new(), b"a".to_vec()];
+				a.extend(domains::block_length_segments());
+				a
+			} else {
+				domains::seg_alphabet(f, *level)
+			};
 			let mut all = domains::paths(&alpha, *n);
 			if *level == 0 {
 				all.extend(domains::long_paths(false));
